@@ -95,10 +95,11 @@ class MetaRunner(object):
             # we only unqueue payloads *while* watching runners as payloads could
             # cause the runners to fail – we need to stop unqueueing them as well.
             await asyncio.gather(*runner_tasks, self._unqueue_payloads())
-        except KeyboardInterrupt:
-            # KeyboardInterrupt in a runner task immediately kills the event loop.
+        except (KeyboardInterrupt, SystemExit):
+            # Either one in a runner task immediately kills the event loop.
             # When we get resurrected, the exception has already been handled!
-            # Just clean up...
+            # Just clean up... Raising again would abort the final phase of
+            # ``asyncio.run``, which waits for the trio thread to finish.
             await asyncio.shield(self._aclose_runners(runner_tasks))
         except BaseException:
             await asyncio.shield(self._aclose_runners(runner_tasks))
